@@ -84,7 +84,7 @@ TABLE['C12'] = {
     'modules': ['tree_spec'], 'replay': 'tree_replay', 'level': 'proof',
     'trusted_base': T_STATE,
     'assumptions': ['Handle.load does not call its own handle'],
-    'explanation': 'Two-state contract of Handle.__call__/clear/cached over the ghost call counter (load called at most once while cached, result identical to the cache, no clause depends on the truth value of the resource); every access path (ResourceMap.__getitem__, StaticResourceMap, Loop.switch) is verified against that contract only.',
+    'explanation': 'Two-state contract of Handle.__call__/clear/cached over the ghost call counter (load called at most once while cached, result identical to the cache, no clause depends on the truth value of the resource or of the handle); ResourceMap.__setitem__ and clear leave every cache alone (frame); every access path (ResourceMap.__getitem__, StaticResourceMap, Loop.switch) is verified against that contract only.',
 }
 
 TABLE['C11'] = {
@@ -97,7 +97,7 @@ TABLE['C11'] = {
 TABLE['C17'] = {
     'modules': ['tree_spec'], 'replay': 'tree_replay', 'level': 'other',
     'bounded_hook': 'pyvc.bounded_native',
-    'bound': 'all histories of up to 4 operations (5 in the thorough tier) over: assignments of two counting handles and a pre-populated map under the keys a, a/b, b-1 (not an identifier), __p (private name), pushing a handle layer on the root or on a; each followed by a full comparison of get_static_map() with the map (item, attribute and get access at every node, absent names, setattr/delattr on every node)',
+    'bound': 'all histories of up to 3 operations (4 in the thorough tier) over 21 operations: assignments of two counting handles and a pre-populated map under the keys a, a/b, b-1 (not an identifier), __p (private name), a falsy handle under a, pushing a handle layer on the root or on a, the same handle stored under a second name, a snapshot taken in the middle of the history, clear() of the root and of the sub-map a; each followed by a full comparison of get_static_map() with the map (item, attribute and get access at every node, no name in the snapshot that the map lacks, setattr/delattr on every node)',
     'trusted_base': T_STATE,
     'assumptions': ['names that collide with members of StaticResourceMap are excluded (as in the statement)'],
     'explanation': 'Immutability (__setattr__/__delattr__ raise unconditionally and change nothing) is discharged deductively. The mirror clause (get_static_map builds a class with __slots__ per map, recursively) is outside the verifier subset and is checked by the BOUNDED native stand-in only: not proved.',
@@ -154,7 +154,7 @@ TABLE['C15'] = {
 TABLE['C16'] = {
     'modules': ['populator_spec'], 'replay': 'populator_replay', 'level': 'other',
     'bounded_hook': 'pyvc.bounded_native',
-    'bound': 'real directory trees in a temporary directory: every subset of up to 3 (4 in the thorough tier) entries of a pool of 12 files/directories (files with two extensions sharing a stem, a file without extension, nested and empty directories, a directory with a dot in its name) x 6 rule lists (no filter, filter with extra positional and keyword arguments, overlapping rules, a missing directory, nested rule directories) x nest_on_conflict x trim_extensions (given at construction or per call), populated once or twice, with and without an older handle under a key a file takes; plus targeted cases (rule path that is a regular file, equal stems, dot names)',
+    'bound': 'real directory trees in a temporary directory: every subset of up to 3 (4 in the thorough tier) entries of a pool of 14 files/directories (files with two extensions sharing a stem, a file without extension, nested and empty directories, a directory with a dot in its name) x 6 rule lists (no filter, filter with extra positional and keyword arguments, overlapping rules, a missing directory, nested rule directories) x nest_on_conflict x trim_extensions, the options given at construction, per call over the opposite values given at construction, or one of each (all four ways for trees of up to 2 entries, rotating for larger ones), populated once or twice, with and without an older handle under a key a file takes; plus targeted cases (rule path that is a regular file, equal stems, dot names)',
     'trusted_base': T_STATE,
     'assumptions': [],
     'explanation': 'Deductive part: the rule stores and passes on its arguments (instantiate: exactly one factory call with (path, *args, **kwargs)); the populator keeps its options and appends rules unchanged; __call__: options fall back to the constructor\'s, a rule path that exists and is not a directory raises ValueError and nothing else does, a missing one is skipped; the contract of ONE listing entry - skipped iff an extension filter rejects it, key = root-relative path with the separator replaced (stem of it for regular files when trimming), directory with a free key -> one new sub-map stored under the key, regular file -> one factory call and one store under the key, a new ChainMap layer pushed exactly when nesting is on and the key is held by a top-layer handle. Which paths glob lists, what the stores do to the tree (C11) and hence the whole-tree mirror are covered by the BOUNDED native stand-in only.',
